@@ -12,7 +12,7 @@
   Breaks when: the carry loop, the flag position or the zero test change
   (the seeded `incNonce` changes of C02, C05 and C06 each break `incNonce_tie`).
 -/
-import Proofs.GoTieMisc
+import Proofs.GoTieNonce
 import Proofs.GoTieStreamR
 namespace AgeModel
 namespace Tie.C02
